@@ -111,6 +111,16 @@ def run(ctx):
     except Skip:
         pass
 
+    # ---- the meaning of "empty" used by the filter bypass (R01.1): an event is empty iff it has no tag at all
+    try:
+        ie = ctx.anchor_fn("R01.1", "watchexec_events::event::Event::is_empty")
+        d = pathx.desc(thir.peel(thir.root(ie)))
+        ctx.require(d in ("Vec::is_empty(self.tags)", "self.tags.len() Eq 0", "Vec::len(self.tags) Eq 0"), "R01.1", "empty-means-no-tags", "Event::is_empty() <=> the event has no tags",
+                    ie.loc(ie.line), detail=d, fail="Event::is_empty() is no longer `no tags at all` (%s): tagged events by-pass the filter in throttle_collect, so events the "
+                    "filter would reject or fail on reach the action handler" % d)
+    except Skip:
+        pass
+
     # ---- R01.9 shape of filesystem events
     try:
         pe = ctx.anchor_fn("R01.9", "watchexec::sources::fs::process_event")
